@@ -195,6 +195,36 @@ def run(ctx):
             if cmd == "uiHeartbeat":
                 t["finalmode"] = {MODE_SIGNER: "signer", MODE_UIHB: "uihb", MODE_BOOT: "boot"}.get(d.mode, "unknown")
             add(t, {"src": "random", "cmd": cmd, "version": version, "code": t["code"]})
+    # one long-lived manager, the device's data changing under it between queries (Ledger and SGX/TCP
+    # transports): every reply must report what the device holds NOW
+    n_seq = ctx.pick(40, 1500)
+    for i in range(n_seq):
+        platform = "ledger" if i % 2 == 0 else "sgx"
+        d = random_device(ctx.rng)
+        d.platform = platform
+        world, proto = mgr.serving_manager(device=d, platform=platform)
+        for step in range(3):
+            cmds = ["getPubKey", "blockchainState", "blockchainParameters"] + \
+                   (["signerHeartbeat"] if platform == "ledger" else [])
+            ctx.rng.shuffle(cmds)
+            for cmd in cmds:
+                install(world)
+                req, st = reqs.make(cmd, ctx.rng)
+                o = mgr.handle_line(proto, json.dumps(req).encode())
+                rp = o.reply() or {}
+                t = project(cmd, req, rp, d, st.get("key"))
+                add(t, {"src": "sequence", "cmd": cmd, "platform": platform, "step": step, "code": t["code"]})
+            # the device moves on: new blockchain state, another firmware's parameters, other keys ...
+            fresh = random_device(ctx.rng)
+            d.state_hashes, d.state_diff, d.state_flags = fresh.state_hashes, fresh.state_diff, fresh.state_flags
+            d.params, d.keys, d.hb = fresh.params, fresh.keys, fresh.hb
+            if step == 1 and ctx.rng.random() < 0.5:
+                # ... possibly across a link failure and the repair that follows it
+                world.reset_counters()
+                world.faults = {0: (ctx.rng.choice(["write", "read"]),)}
+                mgr.handle_line(proto, json.dumps(reqs.make("getPubKey", ctx.rng)[0]).encode())
+                world.reset_counters()
+    res.coverage["device_change_sequences"] = n_seq
     res.coverage["random_device_states"] = n_rand
     res.coverage["model_drift"] = drift
     verdicts, stats = tlc.validate("TraceQueries", "Trace_Queries.cfg", traces, shards=12)
